@@ -785,16 +785,20 @@ fn oracle(dirs: &[Value], text: &str, hist: &[H], log: &[LRec]) {
                 let sp = MSpan { site: 0, fsite: Some(h.fsite), x: h.x, flag: h.flag, y: vec![], exists: true };
                 let (st, _, amb) = static_enabled(dirs, 3, fsites::TARGETS[ti as usize], false, &["x", "flag", "y", "val"]);
                 let raised = scope_raise(h.t, &spans, &stacks) >= 3;
+                let frozen = frozen_raise(h.t, &stacks, &raise_at_enter) >= 3;
                 let cared = dynamics.iter().any(|d| cares(d, &sp));
                 let matched = dynamics.iter().any(|d| cares(d, &sp) && values_match(d, &sp) && 3 <= dir_level(d));
                 let got = delivered(1, "on_new_span", h.uid) == 1;
+                // F17: the implementation reads the raise as it was when each span was entered
+                let f17 = raised != frozen && got == (st || frozen || matched);
+                let sig = if f17 { " [F17-signature]" } else { "" };
                 if st || raised || matched {
                     if !got {
-                        violation("directive-not-applied", format!("directives {text:?}: span {} (target {}, x={}, flag={}) should be enabled (static {}, scope {}, matching span directive {}) but was not created", fsites::NAMES[fsites::SITES[h.fsite].1 as usize], fsites::TARGETS[ti as usize], h.x, h.flag, st, raised, matched));
+                        violation("directive-not-applied", format!("directives {text:?}: span {} (target {}, x={}, flag={}) should be enabled (static {}, scope {}, matching span directive {}) but was not created{sig}", fsites::NAMES[fsites::SITES[h.fsite].1 as usize], fsites::TARGETS[ti as usize], h.x, h.flag, st, raised, matched));
                         return;
                     }
                 } else if !cared && got && !amb {
-                    violation("enabled-but-no-directive", format!("directives {text:?}: span {} (target {}) was created although no directive enables it", fsites::NAMES[fsites::SITES[h.fsite].1 as usize], fsites::TARGETS[ti as usize]));
+                    violation("enabled-but-no-directive", format!("directives {text:?}: span {} (target {}) was created although no directive enables it{sig}", fsites::NAMES[fsites::SITES[h.fsite].1 as usize], fsites::TARGETS[ti as usize]));
                     return;
                 }
                 // cared-by-callsite but values do not match: not judged (the property speaks of matching spans)
